@@ -29,6 +29,7 @@ EXTENDS Naturals, Sequences, FiniteSets, TLC, StoreData, StoreProps
 \*   Spans    set of candidate span records [eid, par, job, name, ty, s, e]   (exhaustive mode)
 \*   MaxLen, Batches, Buffers, MaxRuns, RunFlags  (exhaustive mode)
 \*   SameFiles TRUE iff every ingesting run after the first feeds the same stream again (C15: "the same files")
+\*   Crashes  TRUE iff the process may be killed between the internal steps of a flush (crash-point exploration)
 \*   CleanOn  TRUE iff runs perform the cleaning steps (FALSE: ingestion only, C10 single-run config)
 \*   Traces   sequence of [B, buf, ev: sequence of logged lines]  (trace mode)
 \* StoreProps defines NoPar, BigTs and the property operators (pure functions of tables).
@@ -242,6 +243,13 @@ EndRun == /\ (pc \in {"done", "raised", "crashed"} \/ (pc = "closed" /\ TraceMod
           /\ UNCHANGED <<nodes, assoc, hashes, pendN, pendR, minTs, maxTs, B, buf, run, flags, fed, first, pre, todo, sel,
                          out, ans, files, ingested, tid>>
 
+\* crash point: the process is killed inside the flush protocol; what has been committed stays, the rest is lost
+\* (only explored when StoreData.Crashes is TRUE: no listed property quantifies over crash points)
+Kill == /\ Crashes
+        /\ pc \in {"flushN", "flushA", "filter", "retryN", "retryA", "exitN", "exitA", "exitF", "exitRN", "exitRA"}
+        /\ pc' = "off" /\ pendN' = <<>> /\ pendR' = <<>> /\ ingested' = TRUE
+        /\ UNCHANGED <<nodes, assoc, hashes, minTs, maxTs, B, buf, run, flags, fed, first, pre, todo, sel, out, ans, files, tid>>
+
 Internal == InsertNodes \/ InsertAssoc \/ Filter
 Settled == pc \in {"off", "idle", "closed", "clean2", "clean3", "ug", "stream", "done", "raised", "crashed"}
 
@@ -249,7 +257,7 @@ Settled == pc \in {"off", "idle", "closed", "clean2", "clean3", "ug", "stream", 
 NextX == /\ UNCHANGED l
          /\ \/ (run < MaxRuns /\ \E f \in RunFlags : Open(f))
             \/ (fed < MaxLen /\ \E s \in Spans : SaveData(s))
-            \/ Exit \/ Internal
+            \/ Exit \/ Internal \/ Kill
             \/ (CleanOn /\ (RemoveInconsistent \/ RemoveOutsideWindow \/ UpdateJobNames))
             \/ SkipCleaning
             \/ UgStart \/ HashPage \/ SelectUnique \/ Stream \/ EndRun
@@ -309,6 +317,10 @@ IngestExact == (pc = "closed" /\ flags.ing) => IngestExactP(nodes, assoc, pre.no
 NothingPending == (pc \in {"closed", "clean2", "clean3", "ug", "ugpage", "stream", "done"}) => pendN = <<>> /\ pendR = <<>>
 \* every stored span with a parent has its association row (the cleaning steps rely on it)
 LinksKept == (pc \notin {"flushA", "exitA", "retryA", "exitRA", "crashed"}) => LinksKeptP(nodes, assoc)
+\* the same at rest only (between runs and after an ingestion has completed): what a later run starts from
+LinksKeptAtRest == (pc \in {"off", "closed"}) => LinksKeptP(nodes, assoc)
+\* a completed ingestion leaves every stored span with its link, whatever happened to earlier runs
+HealedByReingest == (pc = "closed" /\ flags.ing) => LinksKeptP(nodes, assoc)
 \* C11 as action properties on the three cleaning steps
 CleanInconsistentExact == [][(pc = "closed" /\ pc' = "clean2") => CleanInconsistentP(nodes, nodes')]_vars
 CleanWindowExact == [][(pc = "clean2" /\ pc' = "clean3") => CleanWindowP(nodes, nodes', WinLo, WinHi)]_vars
